@@ -28,11 +28,11 @@ def items(ctx):
         for ls in (1, 2, 3, 4):
             for qv in itertools.product(vals, repeat=lq):
                 for sv in itertools.product(vals, repeat=ls):
-                    if rng.random() > (0.12 if q else 0.6):
+                    if rng.random() > (0.3 if q else 0.6):
                         continue
                     pen, S = rng.choice([(0, 1), (1, 1), (1, 2), (2, 1)])
                     add([[v] for v in qv], [[v] for v in sv], pen, S)
-    for _ in range(500 if q else 8000):
+    for _ in range(1500 if q else 8000):
         lq = rng.randint(1, 4)
         ls = rng.randint(1, 8)
         nd = rng.choice([1, 1, 1, 2])
